@@ -171,6 +171,25 @@ impl RefCoder {
     }
 }
 
+/// per-(property, type combination) cap on listed failures, so that a flood of one kind cannot
+/// crowd the others out of the (globally capped) report; the rest is counted in HIST
+struct Caps(std::collections::BTreeMap<(String, String), usize>);
+
+impl Caps {
+    fn new() -> Self {
+        Caps(std::collections::BTreeMap::new())
+    }
+    fn fail(&mut self, rep: &mut Report, prop: &str, tag: &str, text: String) {
+        let c = self.0.entry((prop.to_string(), tag.to_string())).or_insert(0);
+        *c += 1;
+        if *c <= 6 {
+            rep.fail(prop, text);
+        } else {
+            rep.count(&format!("{}.failures_not_listed.{}", prop, tag));
+        }
+    }
+}
+
 fn dec_remaining<C: RangeCombo>(d: &Dec<C>) -> usize {
     let (cursor, _, _) = d.clone().into_raw_parts();
     BoundedReadWords::<C::W, Queue>::remaining(&cursor)
@@ -208,6 +227,7 @@ fn oracle_combo<C: RangeCombo>(rng: &mut Rng, w: u32, s: u32, bps: &[(u32, Vec<u
     // type combination is enough, the rest is only counted so that they cannot crowd out other
     // failures in the (capped) report
     let mut d3_reported = 0usize;
+    let mut caps = Caps::new();
     for _ in 0..iters {
         // ---------------- build a message, inspecting one coder and leaving its twin alone ----
         let prefix: Vec<u128> = if rng.chance(1, 5) { { let k = 1 + (rng.next() % 3) as usize; gen_words(rng, w, k) } } else { vec![] };
@@ -230,6 +250,12 @@ fn oracle_combo<C: RangeCombo>(rng: &mut Rng, w: u32, s: u32, bps: &[(u32, Vec<u
         };
         let n = match rng.next() % 8 { 0 => 0, 1 => 1, 2 => 60, _ => rng.next() % 40 } as usize;
         let want = pick_hunt_class(rng, w, s);
+        // threshold regime: largest precision (P == W where the types allow it), a first symbol of
+        // one quantum (range = 2^(S-W) - 1 before the first renormalisation), then new ranges
+        // steered onto / next to the renormalisation threshold — mid-message, compared with the
+        // reference coder after every symbol (C06)
+        let thr_regime = rng.chance(1, 5);
+        let fixed_bp = if thr_regime { let (bb, ps) = bps.last().unwrap(); Some((*bb, *ps.last().unwrap())) } else { fixed_bp };
         // some messages end with a directed pair of symbols: new range on the threshold, then
         // an upper end just above a word boundary (the configuration of defect D3)
         // hunt: 0 = none, 1 = D3 configuration (modes 7, 6), 2 = interval ends on / next to word
@@ -242,6 +268,11 @@ fn oracle_combo<C: RangeCombo>(rng: &mut Rng, w: u32, s: u32, bps: &[(u32, Vec<u
         let mut desc = head.clone();
         let mut broken = false;
         let mut c06_reported = false;
+        let (mut c18_reported, mut c12_reported, mut diverged) = (false, false, false);
+        // "peek while inverted, then continue": in these messages every boundary at which the
+        // encoder holds words back is inspected through a guard (view or temporary decoder)
+        let peek_inverted = rng.chance(1, 2);
+        let mut peeked_inverted = false;
         let mut inverted_steps = 0usize;
         for step in 0..=n {
             // --- at every symbol boundary: snapshot (C07), size queries (C18, C12), sometimes views (C08)
@@ -255,10 +286,10 @@ fn oracle_combo<C: RangeCombo>(rng: &mut Rng, w: u32, s: u32, bps: &[(u32, Vec<u
             let expected = export::<C>(&twin);
             rep.eval("C18");
             let (nw, nb, em) = (coder.num_words(), coder.num_bits(), coder.is_empty());
-            if nw != expected.len() || nb != expected.len() * w as usize || em != expected.is_empty() {
-                rep.fail("C18", format!("{} | nw | nb | empty | export => num_words {:x} num_bits {:x} is_empty {} but exporting returns {:x} words", desc, nw, nb, em, expected.len()));
-                broken = true;
-                break;
+            if (nw != expected.len() || nb != expected.len() * w as usize || em != expected.is_empty()) && !c18_reported && !diverged {
+                // reported once per message; the other properties are still checked on it
+                c18_reported = true;
+                caps.fail(rep, "C18", &tag, format!("{} | nw | nb | empty | export => num_words {:x} num_bits {:x} is_empty {} but exporting returns {:x} words", desc, nw, nb, em, expected.len()));
             }
             // C06: what exporting now returns is what the big-number reference prescribes
             rep.eval("C06");
@@ -266,65 +297,78 @@ fn oracle_combo<C: RangeCombo>(rng: &mut Rng, w: u32, s: u32, bps: &[(u32, Vec<u
             if expected[prefix.len()..] != ref_words[..] && !c06_reported {
                 // reported once per message; the other properties are still checked on it
                 c06_reported = true;
-                rep.fail("C06", format!("{} | export => {} but the arbitrary-precision reference coder gives {}", desc, show_list(expected[prefix.len()..].to_vec()), show_list(ref_words)));
+                caps.fail(rep, "C06", &tag, format!("{} | export => {} but the arbitrary-precision reference coder gives {}", desc, show_list(expected[prefix.len()..].to_vec()), show_list(ref_words)));
             }
             rep.eval("C12");
-            let payload_bits = nb - prefix.len() * w as usize;
-            if !bound.holds(w, s, payload_bits) || nw - prefix.len() > step + 2 {
-                rep.fail("C12", format!("{} | nb | nw => {:x} bits / {:x} words after {:x} symbols exceed the bound", desc, payload_bits, nw - prefix.len(), step));
-                broken = true;
-                break;
+            let payload_bits = (expected.len() - prefix.len()) * w as usize;
+            if (!bound.holds(w, s, payload_bits) || expected.len() - prefix.len() > step + 2) && !c12_reported {
+                c12_reported = true;
+                caps.fail(rep, "C12", &tag, format!("{} | export | nb | nw => {:x} bits / {:x} words after {:x} symbols exceed the bound", desc, payload_bits, expected.len() - prefix.len(), step));
             }
-            if rng.chance(1, 3) {
+            let peek_now = peek_inverted && inv && !diverged;
+            if (peek_now || rng.chance(1, 3)) && !diverged {
                 rep.eval("C08");
-                let kind = rng.next() % 4;
-                let shown: Vec<u128> = match kind {
-                    0 => {
-                        desc.push_str(" | getc");
-                        unwords(&coder.get_compressed())
-                    }
-                    1 => {
-                        desc.push_str(" | export");
-                        export::<C>(&coder)
-                    }
-                    2 => {
-                        // temporary decoder: must decode everything encoded so far (C02 on a prefix)
-                        desc.push_str(" | decoder");
-                        let mut d = coder.decoder();
-                        rep.eval("C02");
-                        match decode_expect::<C, _>(&mut d, &msg) {
-                            Ok(()) => {
-                                if !d.maybe_exhausted() && prefix.is_empty() {
-                                    rep.fail("C02", format!("{} => temporary decoder not exhausted after all symbols", desc));
+                let kind = if peek_now { (rng.next() % 2) * 2 } else { rng.next() % 4 };
+                let mut temp_dec_err: Option<String> = None;
+                let shown_r = guarded(|| -> Vec<u128> {
+                    match kind {
+                        0 => unwords(&coder.get_compressed()),
+                        1 => export::<C>(&coder),
+                        2 => {
+                            // temporary decoder: must decode everything encoded so far (C02 on a prefix)
+                            let mut d = coder.decoder();
+                            match decode_expect::<C, _>(&mut d, &msg) {
+                                Ok(()) => {
+                                    if !d.maybe_exhausted() {
+                                        temp_dec_err = Some("temporary decoder not exhausted after all symbols".into());
+                                    }
                                 }
+                                Err(t) => temp_dec_err = Some(format!("temporary decoder: {}", t)),
                             }
-                            Err(t) => {
-                                if prefix.is_empty() {
-                                    rep.fail("C02", format!("{} => temporary decoder: {}", desc, t));
-                                }
-                            }
+                            drop(d);
+                            expected.clone()
                         }
-                        drop(d);
-                        expected.clone()
+                        _ => {
+                            coder = coder.clone();
+                            expected.clone()
+                        }
                     }
-                    _ => {
-                        desc.push_str(" | clone");
-                        coder = coder.clone();
-                        expected.clone()
+                });
+                desc.push_str(match kind { 0 => " | getc", 1 => " | export", 2 => " | decoder", _ => " | clone" });
+                if kind == 2 {
+                    rep.eval("C02");
+                    if let Some(t) = temp_dec_err {
+                        if prefix.is_empty() {
+                            caps.fail(rep, "C02", &tag, format!("{} => {}", desc, t));
+                        }
                     }
-                };
+                }
                 if inv {
                     rep.count("C08.inspected_while_inverted");
+                    if kind == 0 || kind == 2 {
+                        peeked_inverted = true;
+                        rep.count(&format!("C08.peek_while_inverted.{}", tag));
+                    }
                 }
-                if shown != expected {
-                    rep.fail("C08", format!("{} => view {} but finishing now gives {}", desc, show_list(shown), show_list(expected.clone())));
-                    broken = true;
-                    break;
+                match shown_r {
+                    Err(class) => {
+                        diverged = true;
+                        caps.fail(rep, "C08", &tag, format!("{} => inspection panicked: {}", desc, class));
+                        caps.fail(rep, "C02", &tag, format!("{} => inspection panicked: {}", desc, class));
+                        broken = true;
+                        break;
+                    }
+                    Ok(shown) => {
+                        if shown != expected {
+                            diverged = true;
+                            caps.fail(rep, "C08", &tag, format!("{} => view {} but finishing now gives {}", desc, show_list(shown), show_list(expected.clone())));
+                        }
+                    }
                 }
-                if show_enc::<C>(&coder) != show_enc::<C>(&twin) {
-                    rep.fail("C08", format!("{} | raw => inspected coder {} differs from uninspected twin {}", desc, show_enc::<C>(&coder), show_enc::<C>(&twin)));
-                    broken = true;
-                    break;
+                if !diverged && show_enc::<C>(&coder) != show_enc::<C>(&twin) {
+                    // not fatal for the run: the inspected coder goes on, is sealed and decoded below
+                    diverged = true;
+                    caps.fail(rep, "C08", &tag, format!("{} | raw => inspected coder {} differs from uninspected twin {}", desc, show_enc::<C>(&coder), show_enc::<C>(&twin)));
                 }
             }
             if step == n {
@@ -349,7 +393,7 @@ fn oracle_combo<C: RangeCombo>(rng: &mut Rng, w: u32, s: u32, bps: &[(u32, Vec<u
                     rep.count("C09.rejected_while_inverted");
                 }
                 if o != Ok("impossible".to_string()) || show_enc::<C>(&coder) != before {
-                    rep.fail("C09", format!("{} | raw => out-of-support symbol {:x}: result {:?}, encoder before {} after {}", desc, sym, o, before, show_enc::<C>(&coder)));
+                    caps.fail(rep, "C09", &tag, format!("{} | raw => out-of-support symbol {:x}: result {:?}, encoder before {} after {}", desc, sym, o, before, show_enc::<C>(&coder)));
                     broken = true;
                     break;
                 }
@@ -375,21 +419,41 @@ fn oracle_combo<C: RangeCombo>(rng: &mut Rng, w: u32, s: u32, bps: &[(u32, Vec<u
                         steer::<C>(rng, &coder, w, s, p, &pool, b)
                     }
                 }
+            } else if thr_regime && mode.is_none() {
+                if step == 0 {
+                    let total = pow2(p);
+                    let a = match rng.next() % 3 { 0 => 0, 1 => total - 1, _ => rng.below(total) };
+                    cdf_around(p, a, a + 1)
+                } else {
+                    let md = match rng.next() % 4 { 0 | 1 => Some(8), 2 => Some(4), _ => None };
+                    steer_mode::<C>(rng, &coder, w, s, p, &pool, b, md)
+                }
             } else {
                 steer_mode::<C>(rng, &coder, w, s, p, &pool, b, mode)
             };
+            {
+                // which threshold class does the new (pre-renormalisation) range fall into?
+                let r = to_u128(coder.state().range().get());
+                if let Some(cl) = threshold_class((r >> p) * (cdf[sym + 1] - cdf[sym]), w, s) {
+                    rep.count(&format!("C06.threshold.{}.{}", tag, cl));
+                }
+            }
             desc.push_str(&format!(" | enc {:x} {:x} {:x} {:x}", b, p, cdf[sym], cdf[sym + 1] - cdf[sym]));
             let o1 = guarded(|| C::enc_sym(&mut coder, b, p, &cdf, sym).unwrap());
             let o2 = guarded(|| C::enc_sym(&mut twin, b, p, &cdf, sym).unwrap());
             rep.eval("C02");
             if o1 != Ok("ok".to_string()) || o2 != Ok("ok".to_string()) {
-                rep.fail("C02", format!("{} => encoding an in-support symbol returned {:?}", desc, o1));
+                caps.fail(rep, "C02", &tag, format!("{} => encoding an in-support symbol returned {:?}", desc, o1));
                 broken = true;
                 break;
             }
             bound.push(w, s, p, cdf[sym + 1] - cdf[sym]);
             reference.step(w, s, p, cdf[sym], cdf[sym + 1] - cdf[sym]);
             msg.push((b, p, cdf, sym));
+            if peeked_inverted {
+                rep.count(&format!("C08.peek_while_inverted_then_encoded_more.{}", tag));
+                peeked_inverted = false;
+            }
         }
         if broken {
             continue;
@@ -438,10 +502,15 @@ fn oracle_combo<C: RangeCombo>(rng: &mut Rng, w: u32, s: u32, bps: &[(u32, Vec<u
         let twin_sealed = unwords(&twin.into_compressed().unwrap());
         rep.eval("C08");
         if sealed != twin_sealed {
-            rep.fail("C08", format!("{} | export => {} but the uninspected twin gives {}", desc, show_list(sealed.clone()), show_list(twin_sealed)));
-            continue;
+            // the inspections changed what the encoder outputs: a C08 failure, and the stream
+            // sealed after peeking is not the message's stream (C02); it is still decoded below
+            diverged = true;
+            caps.fail(rep, "C08", &tag, format!("{} | export => {} but the uninspected twin gives {}", desc, show_list(sealed.clone()), show_list(twin_sealed.clone())));
+            caps.fail(rep, "C02", &tag, format!("{} | export => {} but the same message without the inspections seals to {}", desc, show_list(sealed.clone()), show_list(twin_sealed)));
         }
         let plain = format!("{}{}", head, msg_ops(&msg));
+        // replay text of the round trip: the history with its inspections if they mattered
+        let rt = if diverged { desc.clone() } else { plain.clone() };
         let plain_new = format!("range {:x} {:x} | new{}", w, s, msg_ops(&msg));
         rep.sample("C02", || format!("{} | export | intodec{} | exhausted", plain, msg_decs(&msg)));
         rep.sample("C08", || desc.clone());
@@ -451,7 +520,7 @@ fn oracle_combo<C: RangeCombo>(rng: &mut Rng, w: u32, s: u32, bps: &[(u32, Vec<u
         // ---------------- C02: round trip ----------------
         rep.eval("C02");
         if msg.is_empty() && !payload.is_empty() {
-            rep.fail("C02", format!("{} | export => empty message produced words {}", plain, show_list(payload.clone())));
+            caps.fail(rep, "C02", &tag, format!("{} | export => empty message produced words {}", plain, show_list(payload.clone())));
         }
         let mut d: Dec<C> = RangeDecoder::from_compressed(words::<C::W>(&payload)).unwrap();
         let mut ok = true;
@@ -459,22 +528,22 @@ fn oracle_combo<C: RangeCombo>(rng: &mut Rng, w: u32, s: u32, bps: &[(u32, Vec<u
             // C18: a decoder with whole words left must not claim exhaustion
             rep.eval("C18");
             if dec_remaining::<C>(&d) > 0 && d.maybe_exhausted() {
-                rep.fail("C18", format!("{} | export | intodec{} | exhausted => true although words remain", plain, msg_decs(&msg[..i])));
+                caps.fail(rep, "C18", &tag, format!("{} | export | intodec{} | exhausted => true although words remain", plain, msg_decs(&msg[..i])));
             }
             let o = guarded(|| C::dec(&mut d, *b, *p, cdf).unwrap());
             if o != Ok(hex(*sym as u128)) {
-                rep.fail("C02", format!("{} | export | intodec{} => symbol {:x} decoded as {:?} expected {:x}", plain, msg_decs(&msg[..=i]), i, o, sym));
+                caps.fail(rep, "C02", &tag, format!("{} | export | intodec{} => symbol {:x} decoded as {:?} expected {:x}", rt, msg_decs(&msg[..=i]), i, o, sym));
                 ok = false;
                 break;
             }
         }
-        if !ok {
+        if !ok || diverged {
             continue;
         }
         rep.eval("C18");
         if !d.maybe_exhausted() {
-            rep.fail("C02", format!("{} | export | intodec{} | exhausted => false after the last symbol", plain, msg_decs(&msg)));
-            rep.fail("C18", format!("{} | export | intodec{} | exhausted => false after exactly the encoded symbols", plain, msg_decs(&msg)));
+            caps.fail(rep, "C02", &tag, format!("{} | export | intodec{} | exhausted => false after the last symbol", rt, msg_decs(&msg)));
+            caps.fail(rep, "C18", &tag, format!("{} | export | intodec{} | exhausted => false after exactly the encoded symbols", plain, msg_decs(&msg)));
         }
 
         // ---------------- C07: random access ----------------
@@ -500,23 +569,23 @@ fn oracle_combo<C: RangeCombo>(rng: &mut Rng, w: u32, s: u32, bps: &[(u32, Vec<u
                 let r2 = borrowed.seek((pos, st)).map_err(|_| "seek rejected".to_string()).and_then(|_| decode_expect::<C, _>(&mut borrowed, &msg[i..i + cnt]));
                 for r in [r1, r2] {
                     if let Err(t) = r {
-                        rep.fail("C07", format!("{} (snap after symbol {:x}) | intodec | seekto {:x}{} => {}", desc_with_snaps(&head, &msg), i, i, msg_decs(&msg[i..i + cnt]), t));
+                        caps.fail(rep, "C07", &tag, format!("{} (snap after symbol {:x}) | intodec | seekto {:x}{} => {}", desc_with_snaps(&head, &msg), i, i, msg_decs(&msg[i..i + cnt]), t));
                     }
                 }
                 if i + cnt == msg.len() && !(owned.maybe_exhausted() && borrowed.maybe_exhausted()) {
-                    rep.fail("C07", format!("{} | intodec | seekto {:x}{} | exhausted => false at the end", desc_with_snaps(&head, &msg), i, msg_decs(&msg[i..])));
+                    caps.fail(rep, "C07", &tag, format!("{} | intodec | seekto {:x}{} | exhausted => false at the end", desc_with_snaps(&head, &msg), i, msg_decs(&msg[i..])));
                 }
             }
             rep.eval("C07");
             let (fp, fs) = final_snap;
             if owned.seek((fp, fs)).is_err() || !owned.maybe_exhausted() {
-                rep.fail("C07", format!("{} | snap | intodec | seekto {:x} | exhausted => seeking to the final position does not leave the decoder exhausted", desc_with_snaps(&head, &msg), msg.len()));
+                caps.fail(rep, "C07", &tag, format!("{} | snap | intodec | seekto {:x} | exhausted => seeking to the final position does not leave the decoder exhausted", desc_with_snaps(&head, &msg), msg.len()));
             }
             rep.eval("C07");
             let beyond = sealed.len() + 1 + (rng.next() % 3) as usize;
             let before = show_dec::<C>(&owned);
             if owned.seek((beyond, fs)).is_ok() || show_dec::<C>(&owned) != before || borrowed.seek((beyond, fs)).is_ok() {
-                rep.fail("C07", format!("{} | intodec | seek {:x} {:x} {:x} => a position beyond the data was accepted or changed the decoder", plain, beyond, to_u128(fs.lower()), to_u128(fs.range().get())));
+                caps.fail(rep, "C07", &tag, format!("{} | intodec | seek {:x} {:x} {:x} => a position beyond the data was accepted or changed the decoder", plain, beyond, to_u128(fs.lower()), to_u128(fs.range().get())));
             }
             rep.sample("C07", || format!("{} | intodec | seekto 0", desc_with_snaps(&head, &msg)));
         }
@@ -604,12 +673,12 @@ fn oracle_combo<C: RangeCombo>(rng: &mut Rng, w: u32, s: u32, bps: &[(u32, Vec<u
                     Ok(o) => match parse_hex(&o) {
                         Some(sym) if (sym as usize) + 1 < cdf.len() && cdf[sym as usize] < cdf[sym as usize + 1] => {}
                         _ => {
-                            rep.fail("C10", format!("{} => {} is not a symbol of the model", d10, o));
+                            caps.fail(rep, "C10", &tag, format!("{} => {} is not a symbol of the model", d10, o));
                             break;
                         }
                     },
                     Err(class) => {
-                        rep.fail("C10", format!("{} => {}", d10, class));
+                        caps.fail(rep, "C10", &tag, format!("{} => {}", d10, class));
                         break;
                     }
                 }
@@ -667,7 +736,7 @@ fn oracle_combo<C: RangeCombo>(rng: &mut Rng, w: u32, s: u32, bps: &[(u32, Vec<u
                         match guarded(|| C::dec(&mut d, b, p, &cdf).unwrap()) {
                             Ok(_) => {}
                             Err(class) => {
-                                rep.fail("C20", format!("rangedec {:x} {:x} | rawdec {} 0 {:x} {:x} {:x} | dec {:x} {:x} {} => {}", w, s, show_list(data.clone()), lower, range, point, b, p, show_list(cdf.clone()), class));
+                                caps.fail(rep, "C20", &tag, format!("rangedec {:x} {:x} | rawdec {} 0 {:x} {:x} {:x} | dec {:x} {:x} {} => {}", w, s, show_list(data.clone()), lower, range, point, b, p, show_list(cdf.clone()), class));
                                 break;
                             }
                         }
@@ -688,6 +757,7 @@ fn adversarial_combo<C: RangeCombo>(rng: &mut Rng, w: u32, s: u32, bps: &[(u32, 
     let tag = format!("{}x{}", w, s);
     let m = mask(s);
     let u = 1u128 << (s - w);
+    let mut caps = Caps::new();
     for mi in 0..msgs {
         let (b, p) = match mi % 3 {
             0 => { let (bb, ps) = bps.last().unwrap(); (*bb, *ps.last().unwrap()) } // P = W-ish
@@ -753,7 +823,7 @@ fn adversarial_combo<C: RangeCombo>(rng: &mut Rng, w: u32, s: u32, bps: &[(u32, 
             rep.eval("C02");
             syms.push(sym);
             if o != Ok("ok".to_string()) {
-                rep.fail("C02", format!("{} => encoding an in-support symbol returned {:?}", replay(&syms, &cdf), o));
+                caps.fail(rep, "C02", &tag, format!("{} => encoding an in-support symbol returned {:?}", replay(&syms, &cdf), o));
                 failed = true;
                 break;
             }
@@ -767,7 +837,7 @@ fn adversarial_combo<C: RangeCombo>(rng: &mut Rng, w: u32, s: u32, bps: &[(u32, 
             rep.eval("C12");
             let (nw, nb) = (coder.num_words(), coder.num_bits());
             if !bound.holds(w, s, nb) || nw > step + 1 + 2 {
-                rep.fail("C12", format!("{} | nb | nw => {:x} bits / {:x} words after {:x} symbols exceed the bound (adversarial message, {:x} words held back)", replay(&syms, &cdf), nb, nw, step + 1, held));
+                caps.fail(rep, "C12", &tag, format!("{} | nb | nw => {:x} bits / {:x} words after {:x} symbols exceed the bound (adversarial message, {:x} words held back)", replay(&syms, &cdf), nb, nw, step + 1, held));
                 failed = true;
                 break;
             }
@@ -776,7 +846,7 @@ fn adversarial_combo<C: RangeCombo>(rng: &mut Rng, w: u32, s: u32, bps: &[(u32, 
                 let got = export::<C>(&coder);
                 let want = reference.words(w, s);
                 if got != want {
-                    rep.fail("C06", format!("{} | export => differs from the arbitrary-precision reference coder after {:x} symbols (first difference at word {:x})", replay(&syms, &cdf), step + 1, got.iter().zip(want.iter()).position(|(a, b)| a != b).unwrap_or(got.len().min(want.len()))));
+                    caps.fail(rep, "C06", &tag, format!("{} | export => differs from the arbitrary-precision reference coder after {:x} symbols (first difference at word {:x})", replay(&syms, &cdf), step + 1, got.iter().zip(want.iter()).position(|(a, b)| a != b).unwrap_or(got.len().min(want.len()))));
                     failed = true;
                     break;
                 }
@@ -801,16 +871,104 @@ fn adversarial_combo<C: RangeCombo>(rng: &mut Rng, w: u32, s: u32, bps: &[(u32, 
         for (i, &sy) in syms.iter().enumerate() {
             let o = guarded(|| C::dec(&mut d, b, p, &cdf).unwrap());
             if o != Ok(hex(sy as u128)) {
-                rep.fail("C02", format!("{} | intodec | {:x} × dec {:x} {:x} {} => symbol {:x} decoded as {:?} expected {:x}", replay(&syms, &cdf), i + 1, b, p, show_list(cdf.clone()), i, o, sy));
+                caps.fail(rep, "C02", &tag, format!("{} | intodec | {:x} × dec {:x} {:x} {} => symbol {:x} decoded as {:?} expected {:x}", replay(&syms, &cdf), i + 1, b, p, show_list(cdf.clone()), i, o, sy));
                 failed = true;
                 break;
             }
         }
         if !failed && !d.maybe_exhausted() {
-            rep.fail("C02", format!("{} | intodec | … | exhausted => false after the last symbol", replay(&syms, &cdf)));
+            caps.fail(rep, "C02", &tag, format!("{} | intodec | … | exhausted => false after the last symbol", replay(&syms, &cdf)));
         }
         rep.sample("C12", || format!("adversarial: {} symbols at B={:x} P={:x} table {} on {}: up to {} words held back", n, b, p, show_list(cdf.clone()), tag, max_held));
     }
+}
+
+/// C12: long messages of one repeated symbol.  For every probability `q` of a search range
+/// (at `P == W` where the types allow it, and at a smaller precision) the symbol of probability
+/// `q / 2^P` is encoded `n` times; the bit bound is screened in floating point after every 50
+/// symbols and every suspicious prefix is confirmed with exact integer arithmetic before it is
+/// reported.  Losing a fraction of a bit per symbol (e.g. a scale computed from the top words of
+/// `range` only, which hurts when the top word of `range` is periodically small, `q^2 ≈ 2^k`)
+/// shows up here and nowhere in short random messages.
+fn repeated_symbol_combo<C: RangeCombo>(rng: &mut Rng, w: u32, s: u32, bps: &[(u32, Vec<u32>)], nq: usize, n: usize, rep: &mut Report) {
+    let tag = format!("{}x{}", w, s);
+    let mut caps = Caps::new();
+    // (B, P): the largest precision and a small one
+    let (bl, pl) = { let (bb, ps) = bps.last().unwrap(); (*bb, *ps.last().unwrap()) };
+    let small: Vec<(u32, u32)> = bps.iter().flat_map(|(b, ps)| ps.iter().filter(|&&p| p >= 3 && p < pl).map(move |&p| (*b, p))).collect();
+    let mut configs = vec![(bl, pl)];
+    if !small.is_empty() {
+        configs.push(*rng.pick(&small));
+    }
+    let mut worst = f64::NEG_INFINITY;
+    for (b, p) in configs {
+        let total = pow2(p);
+        let qmax = (total - 1).min(2048);
+        // the search range 2..=qmax: all of it if it fits the budget, else a random sample that
+        // always contains the values next to powers of two and their square roots
+        let mut qs: Vec<u128> = if (qmax as usize) <= nq { (2..=qmax).collect() } else {
+            let mut v: Vec<u128> = Vec::new();
+            for k in 1..=11u32 {
+                for d in [0i64, -1, 1, -2, 2, -3, 3] {
+                    for base in [1u128 << k, ((1u128 << (2 * k + 1)) as f64).sqrt() as u128, ((1u128 << (2 * k)) as f64 * 1.5).sqrt() as u128] {
+                        let q = base as i64 + d;
+                        if q >= 2 && (q as u128) <= qmax { v.push(q as u128); }
+                    }
+                }
+            }
+            while v.len() < nq { v.push(rng.range(2, qmax)); }
+            v
+        };
+        qs.sort();
+        qs.dedup();
+        let k = (s - w - p) as f64;
+        let per_symbol_allow = |q: u128| (p as f64) - (q as f64).log2() + (1.0 + (-k).exp2()).log2();
+        for &q in &qs {
+            if q >= total { continue; }
+            // the symbol [cum, cum + q): first, last or in the middle of the table
+            let cum = match rng.next() % 3 { 0 => 0, 1 => total - q, _ => rng.below(total - q + 1) };
+            let (cdf, sym) = cdf_around(p, cum, cum + q);
+            let prob = cdf[sym + 1] - cdf[sym];
+            let mut coder: Enc<C> = RangeEncoder::new();
+            let allow = per_symbol_allow(prob);
+            rep.eval("C12");
+            let mut suspicious: Option<usize> = None;
+            for i in 1..=n {
+                if guarded(|| C::enc_sym(&mut coder, b, p, &cdf, sym).unwrap()) != Ok("ok".to_string()) {
+                    caps.fail(rep, "C02", &tag, format!("range {:x} {:x} | new | {:x} × enc {:x} {:x} {:x} {:x} => not ok", w, s, i, b, p, cdf[sym], prob));
+                    break;
+                }
+                if i % 50 == 0 || i == n {
+                    let excess = coder.num_bits() as f64 - (i as f64) * allow - (s + 2 * w) as f64;
+                    if excess > worst { worst = excess; }
+                    if excess > -0.5 {
+                        suspicious = Some(i);
+                        break;
+                    }
+                }
+            }
+            if let Some(i) = suspicious {
+                // exact confirmation on a fresh encoder
+                let mut c2: Enc<C> = RangeEncoder::new();
+                let mut bound = SizeBound::new();
+                let mut line = format!("range {:x} {:x} | new", w, s);
+                for j in 1..=i {
+                    C::enc_sym(&mut c2, b, p, &cdf, sym).unwrap();
+                    bound.push(w, s, p, prob);
+                    line.push_str(&format!(" | enc {:x} {:x} {:x} {:x}", b, p, cdf[sym], prob));
+                    if !bound.holds(w, s, c2.num_bits()) {
+                        caps.fail(rep, "C12", &tag, format!("{} | nb => {:x} bits after {:x} × the symbol of probability {:x}/2^{:x} exceed the bound (repeated-symbol message)", line, c2.num_bits(), j, prob, p));
+                        break;
+                    }
+                }
+            }
+            rep.count(&format!("C12.repeated.{}.messages", tag));
+        }
+    }
+    // how close the worst message came to the bound (bits of slack left, bucketed)
+    let slack = -worst;
+    let bucket = if slack < 0.0 { "exceeded" } else if slack < 8.0 { "<8" } else if slack < 32.0 { "<32" } else if slack < 128.0 { "<128" } else { ">=128" };
+    rep.count(&format!("C12.repeated.{}.min_slack_bits.{}", tag, bucket));
 }
 
 fn desc_with_snaps(head: &str, msg: &[(u32, u32, Vec<u128>, usize)]) -> String {
@@ -824,6 +982,20 @@ fn desc_with_snaps(head: &str, msg: &[(u32, u32, Vec<u128>, usize)]) -> String {
 pub fn oracle(rng: &mut Rng, tier: &str, rep: &mut Report) {
     let iters = if tier == "thorough" { 20000 } else { 1200 };
     let adv = if tier == "thorough" { 60 } else { 6 };
+    let (nq, nrep) = if tier == "thorough" { (2048, 2000) } else { (160, 1200) };
+    for (w, s, bps) in combos() {
+        match (w, s) {
+            (8, 16) => repeated_symbol_combo::<C8x16>(rng, w, s, &bps, nq, nrep, rep),
+            (8, 32) => repeated_symbol_combo::<C8x32>(rng, w, s, &bps, nq, nrep, rep),
+            (8, 64) => repeated_symbol_combo::<C8x64>(rng, w, s, &bps, nq, nrep, rep),
+            (16, 32) => repeated_symbol_combo::<C16x32>(rng, w, s, &bps, nq, nrep, rep),
+            (16, 64) => repeated_symbol_combo::<C16x64>(rng, w, s, &bps, nq, nrep, rep),
+            (32, 64) => repeated_symbol_combo::<C32x64>(rng, w, s, &bps, nq, nrep, rep),
+            (32, 128) => repeated_symbol_combo::<C32x128>(rng, w, s, &bps, nq, nrep, rep),
+            (64, 128) => repeated_symbol_combo::<C64x128>(rng, w, s, &bps, nq, nrep, rep),
+            _ => {}
+        }
+    }
     for (w, s, bps) in combos() {
         match (w, s) {
             (8, 16) => adversarial_combo::<C8x16>(rng, w, s, &bps, adv, rep),
